@@ -330,7 +330,7 @@ def rules(ctx: Ctx) -> None:
     for f in prog.funcs.values():
         if f.mod is mod and any(d.startswith(f"{app_name}.route(") for d in f.decorators):
             handlers.append(f)
-    ctx.floor("route handlers registered through the route decorator", len(handlers), 3)
+    ctx.floor("route handlers registered through the route decorator", len(handlers), 1)
     ctx.extra["anchors"] = {"app": app_cls.qual, "dispatcher": disp.qual, "handlers": [h.qual for h in handlers]}
 
     # ---- containment predicates (G1) --------------------------------------------------
@@ -373,7 +373,7 @@ def rules(ctx: Ctx) -> None:
         if not ps:
             continue
         taint.analyse(h, {ps[0]: "DICT"})
-    ctx.floor("request-derived flows into file-system sinks", len(taint.sinks), 4)
+    ctx.floor("request-derived flows into file-system sinks", len(taint.sinks), 3)
 
     # ---- dispatcher guard (R17.2) -------------------------------------------------------
     dcfg = flow(prog, disp).cfg
